@@ -92,6 +92,42 @@ fn bulk_steps(plan: &RunPlan, r: &mut Rng) -> Vec<Step> {
     match order {
         0 => {}
         1 => keys.reverse(),
+        // outward from the middle: every key arrives alternately below the minimum and above the maximum
+        3 => {
+            let sorted = keys.clone();
+            let m = sorted.len() / 2;
+            keys.clear();
+            let (mut lo, mut hi) = (m as isize - 1, m);
+            while lo >= 0 || hi < sorted.len() {
+                if hi < sorted.len() {
+                    keys.push(sorted[hi]);
+                    hi += 1;
+                }
+                if lo >= 0 {
+                    keys.push(sorted[lo as usize]);
+                    lo -= 1;
+                }
+            }
+        }
+        // inward from both ends
+        4 => {
+            let sorted = keys.clone();
+            keys.clear();
+            let (mut lo, mut hi) = (0usize, sorted.len());
+            while lo < hi {
+                keys.push(sorted[lo]);
+                lo += 1;
+                if lo < hi {
+                    hi -= 1;
+                    keys.push(sorted[hi]);
+                }
+            }
+        }
+        // lower half ascending, then upper half descending (a long inner spine at the seam)
+        5 => {
+            let m = keys.len() / 2;
+            keys[m..].reverse();
+        }
         _ => {
             for i in (1..keys.len()).rev() {
                 let j = r.below(i as u64 + 1) as usize;
